@@ -794,7 +794,7 @@ class C05(Prop):
         # round 3: the API contract discharged
         "step_total", "history_total", "history_total_no_fault", "history_total_no_set", "error_only_outside_contract", "contract_implies_callerOk", "callerOk_decidable", "spec_bracket", "history_memory_exact", "history_memory_mode_independent",
         "unsafe_set_beyond_window", "fixed_setoffset_beyond_end_in_memory", "fixed_anchor_ahead_of_cursor", "fixed_rewind_before_anchor",
-        "stable_ptr_valid_iff", "plain_anchor_no_promise", "setoffset_beyond_end_deterministic")]
+        "stable_ptr_valid_iff", "plain_anchor_no_promise", "setoffset_beyond_end_deterministic", "history_spec_x", "history_x_pagesize_independent", "mode_fixed")]
     theorems = theorems + MEM_THEOREMS   # round4-mem
     theorems = theorems + OPEN_THEOREMS   # round4-open
     claimed = True
@@ -805,7 +805,7 @@ class C05(Prop):
                   "readLines_eq_specLines: reading any input line by line on any opener yields exactly specLines src; get_prefix/get_all_in_memory; "
                   "stable_ptr_valid_quiet: pointers stay valid in the whole-input modes and on an exhausted stream. "
                   "Round 6: stable_ptr_valid (a refill under bf->stable never moves or frees a handed-out byte: same memgen, old window a prefix of the new one), stable_ptr_valid_history (along every history of the other 13 operations, any arguments, "
-                  "until the last anchor is raised), stable_anchor_establishes, stable_growth_bounded (allocation doubles: retired blocks sum to less than the live one); memIsRealL_spec/_sound (esl_mem_IsReal after fix 8112354); setoffset_beyond_end_deterministic (outside the contract but one outcome for every page size: SetOffset beyond the end of a paged input = eslEINVAL, cursor at the end, simulation continues). "
+                  "until the last anchor is raised), stable_anchor_establishes, stable_growth_bounded (allocation doubles: retired blocks sum to less than the live one); memIsRealL_spec/_sound (esl_mem_IsReal after fix 8112354); setoffset_beyond_end_deterministic (outside the contract but one outcome for every page size: SetOffset beyond the end of a paged input = eslEINVAL, cursor at the end, simulation continues); history_spec_x / history_x_pagesize_independent: history_spec for the larger class ValidHistX (contract, or SetOffset beyond the end ahead of the cursor, anywhere in the history) on streams and pipes; mode_fixed. "
                   "Round 4: history_total / history_total_no_fault for EVERY history on which the code defines the outcome (hypothesis CallerOk: no Set beyond the exposed bytes; anchors ahead of the cursor and rewinds before the anchor included; "
                   "the window invariant and the simulation relation no longer assume anchor <= cursor); history_memory_exact: in the whole-input modes every history equals the total specification memRun; "
                   "esl_buffer_Open/OpenFile/OpenPipe/Close: open_finds_iff (cwd first, then the first listed directory), openFile_mode_spec (mode = function of size and threshold), open_semantics_mode_independent, close_releases_exactly_once, asStr_nul_terminated. "
